@@ -1,5 +1,7 @@
 /-
-  Driver/ExtCommute.lean — requests for the guards of C17 `commute_succeeds_replace` (PM/CommuteGuard.lean).
+  Driver/ExtCommute.lean — requests for the guards of C17 `commute_succeeds_replace` and
+  `commute_succeeds_around` (PM/CommuteGuard.lean), and the whole rebase-and-apply square of the
+  model for a pair of steps.
 -/
 import Lean.Data.Json
 import PM
@@ -8,18 +10,50 @@ import Driver.Base
 open Lean (Json)
 open PM PM.Codec
 
+/-- `(from, to, slice)` of a replace or replace-around step -/
+def replRange : Step → Option (Nat × Nat × Slice)
+  | .replace f t s _ => some (f, t, s)
+  | .replaceAround f t _ _ s _ _ => some (f, t, s)
+  | _ => none
+
 def handleCommute (st : St) (op : String) (j : Json) : Option (D (St × Json)) :=
   match op with
   | "commuteGuard" => some do
-    -- two replace steps on the same document, the first one's range before the second one's
+    -- two replace / replace-around steps on the same document, the first one's range before the second one's
     let d ← node (← field j "doc")
     let a ← step (← field j "a")
     let b ← step (← field j "b")
-    match a, b with
-    | .replace f1 t1 s1 _, .replace f2 t2 s2 _ =>
+    match replRange a, replRange b with
+    | some (f1, t1, s1), some (f2, t2, s2) =>
       let e1 := depthAt d.kids f1 - s1.openStart
       let e2 := depthAt d.kids f2 - s2.openStart
       return (st, ok (Json.arr #[Json.bool (insideLeft d.kids f1 t1 e1 f2 t2 e2),
         Json.bool (insideRight d.kids f1 t1 e1 f2 t2 e2), Json.bool (commuteGuard d.kids f1 t1 s1 f2 t2 s2)]))
     | _, _ => return (st, ok Json.null)
+  | "aroundShape" => some do
+    match (← step (← field j "step")) with
+    | .replaceAround f t gf gt sl ins _ => return (st, ok (Json.bool (aroundShape f t gf gt sl ins)))
+    | _ => return (st, ok Json.null)
+  | "commuteSquare" => some do
+    -- the model's square: both steps applied to the base document, each rebased over the other's map,
+    -- the rebased steps applied.  Answer: [a', b', dab, dba] (null = dropped / not applicable)
+    let S ← getSchema st j
+    let d ← node (← field j "doc")
+    let a ← step (← field j "a")
+    let b ← step (← field j "b")
+    let a' := a.map b.getMap
+    let b' := b.map a.getMap
+    let dab : Option Node :=
+      match S.apply a d, b' with
+      | .ok da, some b2 => match S.apply b2 da with
+        | .ok x => some x
+        | .error _ => none
+      | _, _ => none
+    let dba : Option Node :=
+      match S.apply b d, a' with
+      | .ok db, some a2 => match S.apply a2 db with
+        | .ok x => some x
+        | .error _ => none
+      | _, _ => none
+    return (st, ok (Json.arr #[eOpt eStep a', eOpt eStep b', eOpt eNode dab, eOpt eNode dba]))
   | _ => none
